@@ -204,7 +204,7 @@ def run(ctx):
             doc.parts.append(rid)
             if not is_req and rng.random() < 0.6:
                 # 0x39 is the 'result' element that carries a value (operation-error); by name the zero-length 0x37/0x38 come first
-                doc.parts.append(LRRP.get_token(0x39, bytes(rng.getrandbits(8) for _ in range(3)), {"result-code": rng.choice([1, 5, 200, 70000])}, is_request=False))
+                doc.parts.append(LRRP.get_token(0x39, bytes(rng.getrandbits(8) for _ in range(3)), {"result-code": rng.choice([0, 0, 1, 5, 127, 128, 200, 70000, 2 ** 32 - 1])}, is_request=False))
             elif not is_req and rng.random() < 0.5:
                 doc.parts.append(LRRP.get_token("result", b"", {0x23: 0}, is_request=False))
             if not is_req and rng.random() < 0.5:
